@@ -85,7 +85,7 @@ def main(argv):
     c.proof_step(res, PID, extra_targets=["EvalInst.vo"])
 
     # ---------------- (a) determinism: same programs, several processes, dirty heap, model
-    n_prog = 250 if tier == "quick" else 3000
+    n_prog = 250 if tier == "quick" else 40000
     g = Gen(rng)
     progs = ["\n".join(g.program(2 + rng.below(8))) for _ in range(n_prog)]
     runs = []
@@ -105,7 +105,7 @@ def main(argv):
                 res.violation("the same program with the same inputs gave different results in different runs",
                               {"kind": "impl-law", "program": p, "observed": sorted(outs)})
     # the real CLI twice (different processes), on programs that declare outputs
-    cli_n = 25 if tier == "quick" else 200
+    cli_n = 25 if tier == "quick" else 1500
     cli_diff = 0
     for p in [q for q in progs if "output" in q][:cli_n]:
         r1 = subprocess.run([cli, p], stdin=subprocess.DEVNULL, capture_output=True, text=True)
@@ -150,7 +150,7 @@ def main(argv):
                                   "generator_node_histogram": g.stats}
 
     # ---------------- (b) evaluate twice, (c) let-abstraction — on the implementation alone
-    n_let = 400 if tier == "quick" else 5000
+    n_let = 400 if tier == "quick" else 60000
     pairs = []
     g2 = Gen(rng, allow_fail=False)
     for _ in range(n_let):
